@@ -38,7 +38,7 @@ def impl_oracle(c):
 
 
 def run(ck):
-    n = 400 if not ck.thorough else 8000
+    n = 5000 if not ck.thorough else 50000
     ck.gen()
     built = ck.coq_make(J.MODEL + PROOFS, clean=ck.thorough)
     ck.obligations = ck.count_statements(STATEMENT_FILES)
